@@ -1,0 +1,63 @@
+//go:build verif
+
+package fasthttp
+
+import (
+	"sync/atomic"
+	"time"
+)
+
+// Thin pass-through wrappers for the LBClient checks (property C40), compiled only with -tags verif.
+// They add no behaviour: every function forwards to the unexported code it names.
+
+// VerifLBClient is the per-client balancing state (lbClient).
+type VerifLBClient = lbClient
+
+// VerifLBMaxPenalty / VerifLBPenaltyDuration expose the unexported constants.
+const (
+	VerifLBMaxPenalty      = maxPenalty
+	VerifLBPenaltyDuration = penaltyDuration
+)
+
+// VerifLBGet runs LBClient.get (including the lazy init) and returns the chosen lbClient and its index
+// in cc.cs (-1, nil when get returns nil).
+func VerifLBGet(cc *LBClient) (int, *VerifLBClient) {
+	c := cc.get()
+	if c == nil {
+		return -1, nil
+	}
+	cc.mu.RLock()
+	defer cc.mu.RUnlock()
+	for i, x := range cc.cs {
+		if x == c {
+			return i, c
+		}
+	}
+	return -1, c
+}
+
+// VerifLBClients returns a copy of cc.cs (no init is triggered).
+func VerifLBClients(cc *LBClient) []*VerifLBClient {
+	cc.mu.RLock()
+	defer cc.mu.RUnlock()
+	return append([]*VerifLBClient(nil), cc.cs...)
+}
+
+// VerifLBWrapped returns the BalancingClient wrapped by c.
+func VerifLBWrapped(c *VerifLBClient) BalancingClient { return c.c }
+
+// VerifLBPenalty / VerifLBTotal read the atomic counters of c.
+func VerifLBPenalty(c *VerifLBClient) uint32 { return atomic.LoadUint32(&c.penalty) }
+func VerifLBTotal(c *VerifLBClient) uint64   { return atomic.LoadUint64(&c.total) }
+
+// VerifLBIncPenalty / VerifLBDecPenalty forward to lbClient.incPenalty / decPenalty.
+func VerifLBIncPenalty(c *VerifLBClient) bool { return c.incPenalty() }
+func VerifLBDecPenalty(c *VerifLBClient)      { c.decPenalty() }
+
+// VerifLBDoDeadline forwards to lbClient.DoDeadline (a call that was routed to c).
+func VerifLBDoDeadline(c *VerifLBClient, req *Request, resp *Response, deadline time.Time) error {
+	return c.DoDeadline(req, resp, deadline)
+}
+
+// VerifLBPendingRequests forwards to lbClient.PendingRequests (pending + penalty).
+func VerifLBPendingRequests(c *VerifLBClient) int { return c.PendingRequests() }
